@@ -12,12 +12,15 @@ def one(d):
     out = subprocess.run([os.path.join(here, "tools", "eval_mutant.sh"), os.path.join(d, "patch.diff"), os.path.join(d, "demo.py"), checks, "quick"],
                          capture_output=True, text=True, env=dict(os.environ, MUT_BASE=m.get("base_commit", "HEAD"))).stdout
     res = {}
+    counts = {}
     for line in out.splitlines():
         mm = re.match(r"check (C\d+) rc=(\d+): (\d+) VIOLATION", line)
         if mm:
             res[mm.group(1)] = int(mm.group(2)) == 1 and int(mm.group(3)) > 0
+            nv = re.search(r"'violated': (\d+)", line)
+            counts[mm.group(1)] = int(nv.group(1)) if nv else 0
     tests = [l for l in out.splitlines() if l.startswith("tests:")]
-    return m["id"], m["checks"], res, tests[0] if tests else "?"
+    return m["id"], m["checks"], res, (tests[0] if tests else "?") + " ; violating cases: " + str(counts)
 
 
 def main():
@@ -33,7 +36,7 @@ def main():
                     bad += 1
                     flag += "  <-- REGRESSION"
                 lines.append("| %s | %s | %s | %s |" % (sid, c, flag, tests))
-            print(sid, now, flush=True)
+            print(sid, now, tests.split(";")[-1], flush=True)
     with open(os.path.join(here, "seeded", "RECONFIRM.md"), "w") as f:
         f.write("# Re-confirmation of all seeded changes against the current checks\n\n%d changes, %d regressions, %.0f s.\n\n| id | check | result | repo tests on the patched tree |\n|---|---|---|---|\n" % (len(dirs), bad, time.time() - t0))
         f.write("\n".join(lines) + "\n")
